@@ -2,6 +2,20 @@ import hugr.ops as ops
 from hugr.hugr.node_port import InPort
 from hugr.tys import ValueKind, ConstKind, FunctionKind
 
+def const_payload(val):
+    """type + value of a constant, bit-exact for floats (0.0 / -0.0 and NaN payloads differ)"""
+    import struct
+    name = type(val).__name__
+    v = getattr(val, "v", None)
+    if isinstance(v, float):
+        return f"{name}:f64:0x{struct.pack('>d', v).hex()}"
+    if isinstance(v, bool):
+        return f"{name}:{v}"
+    if isinstance(v, int):
+        return f"{name}:w{getattr(val, 'width', '?')}:{v}"
+    return f"{name}:" + repr(val).replace(" ", "").replace("(", "<").replace(")", ">").replace(",", ";")
+
+
 def func_terms(h, fname):
     fn = None
     for n, d in h.nodes():
@@ -41,7 +55,7 @@ def func_terms(h, fname):
         if isinstance(op, ops.LoadConst):
             return src(node, 0)
         if isinstance(op, ops.Const):
-            return "const(" + str(op.val).replace(" ", "") + ")"
+            return "const(" + const_payload(op.val) + ")"
         used.add(node)
         args = []
         for i in range(h.num_in_ports(node)):
